@@ -66,7 +66,7 @@ func init() {
 			"Softmax/LogSoftmax, IEEE float32, THOROUGH TIER ONLY (each proof takes about a minute of solver time): shapes (2) and (2,2), default axis, all finite inputs of any magnitude: results not NaN, Softmax in [0,1], LogSoftmax <= 0, under stated bracketing facts about exp/log",
 			"Softmax/LogSoftmax, exact arithmetic: shapes up to (2,2,2): outputs equal exp(x-m)/sum resp. (x-m)-log(sum) along the requested axis only, each Softmax slice sums to 1 (exp, log uninterpreted with exp > 0)",
 		}
-		p.Outside = []string{"ordering of NaN in ReduceMax/ReduceMin and ArgMax", "repeated reduction axes", "accuracy of exp/log", "extents > 3", "LogSoftmax finiteness for inputs whose difference overflows float32 (no implementation can represent the result)"}
+		p.Outside = []string{"IEEE behaviour of Softmax/LogSoftmax for rows of more than 3 elements (the solvers do not finish the floating-point query; over the reals rows of any small length are covered, but softmax is shift invariant there, so a slip in the row maximum that only matters through overflow is invisible - seeded change C09-J is of that kind and is not detected)", "ordering of NaN in ReduceMax/ReduceMin and ArgMax", "repeated reduction axes", "accuracy of exp/log", "extents > 3", "LogSoftmax finiteness for inputs whose difference overflows float32 (no implementation can represent the result)"}
 		p.Explanation = "ArgMax/ReduceMax/ReduceMin/Softmax/LogSoftmax Apply paths executed symbolically; gorgonia's Argmax, Max/Min and the two softmax kernels are line-by-line ports (including their quirks) validated against native runs"
 		return p
 	}
